@@ -318,7 +318,11 @@ impl Drop for Tok {
                     l.total_dropped += 1;
                     l.live -= 1;
                 }
-                _ => l.double_drops.push(id),
+                _ => {
+                    // leave the witness on stderr too: the allocator may abort the process on the Box below
+                    eprintln!("LEDGER-DOUBLE-DROP id={}", id);
+                    l.double_drops.push(id)
+                }
             }
             if !heap_ok {
                 l.double_drops.push(id | (1 << 62));
